@@ -27,6 +27,8 @@ import (
 const (
 	sigReceiveOnly = "C12/group-by-plan-with-receive-only-targets"
 	sigRootIsMid   = "C12/group-by-plan-root-is-computing-node"
+	// timing dependent, found through C12's check although it is no layout dependence
+	sigLeafReducesTwice = "C12/leaf-reduces-twice-when-two-families-finish-together"
 )
 
 func verdict(t *testing.T, sig string, reproduced bool, what string) {
@@ -233,6 +235,45 @@ func TestRegression_UnknownTagKeyOnLeafFailsWholeCondition(t *testing.T) {
 	rs, err := e.xc.Query("root:1", ls[1].db, sql)
 	got := node.Canon(rs)
 	verdict(t, sigUnknownTagKey, err != nil || !got.Equal(ref), fmt.Sprintf("%s\none node: s1=3\ntwo nodes (one only has the series with zone, the other only the series with host): err=%v %+v\n%s", sql, err, e.xc.observed(), got))
+}
+
+// Every data load stage of a leaf (one per data family in the time range) ends with a reduce
+// operator that reduces the shared down sampling aggregators "if no data load task is pending". When
+// the last tasks of two families finish together, both reduce operators see zero pending tasks and
+// read the aggregators before either resets them: the leaf's answer carries the sums twice. Timing
+// dependent (order of 1 in 10^4 queries here), so this reproduction repeats one query and may miss it.
+func TestRegression_LeafReducesTwice(t *testing.T) {
+	d := &dataset{TwoFamilies: true,
+		Metrics: []metricDef{{Name: "cpu", TagKeys: []string{"host", "zone"}, Fields: []fieldDef{{"la", tLast}, {"s1", tSum}, {"s2", tSum}}}},
+		Batches: [][]point{{}, {}},
+	}
+	for i := 0; i < 16; i++ {
+		d.Series = append(d.Series, seriesDef{Metric: 0, Tags: map[string]string{"host": fmt.Sprintf("h%d", i%4), "zone": fmt.Sprintf("z%d", i/4)}, Fields: []int{0, 1, 2}})
+		d.Batches[0] = append(d.Batches[0], point{Series: i, Slot: 2, Vals: map[int]float64{0: 1, 1: 1, 2: 1}})  // family 10:00
+		d.Batches[1] = append(d.Batches[1], point{Series: i, Slot: 20, Vals: map[int]float64{0: 2, 1: 2, 2: 2}}) // family 11:00
+	}
+	// six shards on one leaf: the race is per shard
+	e, ls := fixture(t, d, []string{"root"}, &layoutSpec{Shards: 6, Nodes: [][]int{{0, 1, 2, 3, 4, 5}}})
+	sql := "select sum(s1), max(la), min(la), s2 from cpu where " + fullRange() + " group by host,time(300s)"
+	q := &querySpec{Metric: 0, Items: []selItem{{"s1", "sum"}, {"la", "max"}, {"la", "min"}, {"s2", ""}}, StartS: -60, EndS: 420, Interval: 300, GroupBy: []string{"host"}}
+	if q.sql(d) != sql {
+		t.Fatalf("harness: %s", q.sql(d))
+	}
+	m := evalModel(d, q)
+	n := 10000
+	if ev.Known(sigLeafReducesTwice) {
+		n = 2000
+	}
+	for i := 0; i < n; i++ {
+		rs, err := e.xc.Query("root:1", ls[1].db, sql)
+		if err != nil {
+			t.Fatal(err)
+		}
+		if msg := checkReference(node.Canon(rs), m); msg != "" {
+			verdict(t, sigLeafReducesTwice, true, fmt.Sprintf("execution %d of %s (16 series x 2 families, every group sums to 12): %s", i+1, sql, msg))
+			return
+		}
+	}
 }
 
 // ---- the plans of the production state manager --------------------------------------------------------
